@@ -44,8 +44,8 @@ TInit == /\ IsEvent("init")
                         kcodes, ktoks, knons, kproofs, acreds, asteps, minted, issuedN, releases, redeemed, panics, cover, hist>>
 
 TOffer == IsEvent("offer") /\ FlowSeq[nflows + 1] = Ev.f /\ OfferTo(Ev.subj)
-TForge == IsEvent("forge") /\ ForgeDo(Ev.o.iss, Ev.o.code, Ev.o.typ)
-TRecv  == IsEvent("recv") /\ Recv(Ev.o)
+TForge == IsEvent("forge") /\ ForgeDo(Ev.o.iss, Ev.o.claim, Ev.o.code, Ev.o.typ)
+TRecv  == IsEvent("recv") /\ Recv(Ev.o) /\ (w'.pc = "idle") = Ev.abort      \* the wallet really gave up on the metadata
 
 TTokBegin ==
     /\ IsEvent("tokbegin")
@@ -73,7 +73,7 @@ TWTokX  == IsEvent("wtokx") /\ WTokXDo(Ev.non)
 TWCredX ==
     /\ IsEvent("wcredx")
     /\ WCredX(Ev.cred)
-    /\ Proof("W", TRUE, "X", TRUE, w.non) = Ev.proof /\ w.o.typ = Ev.otyp
+    /\ WProof = Ev.proof /\ w.o.typ = Ev.otyp
     /\ HolderAccepts(Ev.cred, w.o.typ) = Ev.stores             \* what the wallet node's store really gained
 TTick == IsEvent("tick") /\ Tick
 
